@@ -100,3 +100,5 @@ func call(f func()) (p interface{}) {
 	f()
 	return nil
 }
+
+func errf(format string, a ...interface{}) error { return fmt.Errorf(format, a...) }
